@@ -49,7 +49,9 @@ var summaries = map[string]extSum{
 	"(*github.com/openacid/slim/array.U16).Get":       pure,
 	"github.com/openacid/low/bitmap.Fmt":              pure,
 	"github.com/openacid/low/bitstr.New":              fresh("bitstr bytes copied out of a string"),
-	"github.com/openacid/low/bitstr.StrCmpUpto":       pure,
+	// bitstr.StrCmpUpto is deliberately NOT summarised: it reinterprets a 16-byte string header as
+	// a 24-byte slice header (the capacity is whatever follows on the stack), see defect D6
+	// (fixed by 650a41a). A call to it counts as an unsummarised callee and breaks facts_ok.
 	"github.com/openacid/low/bitstr.CmpUpto":          pure,
 	"github.com/openacid/low/bitstr.Cmp":              pure,
 	"github.com/openacid/low/bitstr.Len":              pure,
